@@ -22,6 +22,10 @@ def main():
     # lone surrogates are code points of a Python str like any other
     texts += ["'\\u\ud800abc'", "'\\x\ud800a'", "'\\N{\ud800}'",
               "'a\ud800b'", '"\\x\udfffa"', '\ud800', "`\udc00`"]
+    # ill-formed escapes next to / made of non-ASCII characters
+    texts += ["'\\N{\u03a9MEGA}'", '"\\N{\u20ac}"', "'\\x\u00e90'",
+              "'\u00e9\\xZZ'", "'\\xZZ\u00e9'", "'\\u12\u00e94'",
+              "'\U0001f600\\N{nope}'"]
     # deeply nested (but valid) inputs: parsing is iterative, no input may
     # exhaust the interpreter stack
     texts += ['1' + ' + 1' * 400, '-' * 400 + '1', '(' * 300 + '1' + ')' * 300,
